@@ -20,7 +20,7 @@ import (
 
 var (
 	ErrFrameShort          = errors.New("ppp dispatcher: frame shorter than 4 header bytes")
-	ErrFrameLengthMismatch = errors.New("ppp dispatcher: declared length exceeds payload")
+	ErrFrameLengthMismatch = errors.New("ppp dispatcher: declared length shorter than header or exceeds payload")
 )
 
 // Dispatcher holds references to the per-session FSMs and a set of
@@ -95,7 +95,9 @@ func (d *Dispatcher) HandleFrame(proto uint16, payload []byte) error {
 	code := payload[0]
 	id := payload[1]
 	length := binary.BigEndian.Uint16(payload[2:4])
-	if int(length) > len(payload) {
+	// RFC 1661 section 5: the Length field covers code, id, length and data, so
+	// anything below 4 is malformed and would make the slice below panic.
+	if int(length) < 4 || int(length) > len(payload) {
 		return ErrFrameLengthMismatch
 	}
 	data := payload[4:length]
